@@ -1184,9 +1184,31 @@ class Translator:
         else:
             b = self.lv(base)
         r = X("mem", b, e["name"], ty=self.lower(fty))
+        g = self.guarded_check(mnode, e["name"], b)
+        if g is not None:
+            # lock discipline: the access is preceded by an assertion that the guarding mutex is held
+            r = deref(X("sexpr", [g], addr(r), ty=Ty("ptr", to=self.lower(fty))))
         if fty.kind == "ref":
             return deref(r)
         return r
+
+    def guarded_check(self, mnode, fname, base):
+        gb = self.opts.get("guarded_by")
+        if not gb:
+            return None
+        # constructors and destructors run before/after the object is shared
+        if self.cur.kind in ("CXXConstructorDecl", "CXXDestructorDecl"):
+            return None
+        par = self.ast.parent.get(mnode.get("id"))
+        prec = self.ast.nodes.get(par, {})
+        key = None
+        for (rec, fld), mtx in gb.items():
+            if fld == fname and rec in (prec.get("name") or ""):
+                key = mtx
+        if key is None:
+            return None
+        self.rule("guarded-by check")
+        return X("raw", "__CPROVER_assert(%s.%s.g_held != 0, \"LOCK field '%s' is accessed without holding '%s'\");" % (self.pr(base) if base.k != "deref" else "(*%s)" % self.pr(base.a[0]), key, fname, key))
 
     def e_ArraySubscriptExpr(self, e):
         a, i = e["inner"]
